@@ -221,7 +221,7 @@ func runH2(k *kernel.K, focus string) {
 	// ---- scripts ----
 	nstreams := w.Range(1, 4)
 	heavy := w.Chance(1, 4)
-	dataSizes := []int{0, 1, 100, 5000, 16384, 9000}
+	dataSizes := []int{0, 1, 100, 5000, 16384, 9000, 40000}
 	if small {
 		dataSizes = []int{0, 1, 17, 100, 600}
 	}
